@@ -299,6 +299,10 @@ func (fv *FV) sortOf(t types.Type) string {
 		return sInt
 	case *types.Slice:
 		return sSlice
+	case *types.Array:
+		// a local array is its own freshly allocated backing array, seen through a slice of constant length
+		// (declared with `var a [N]T` only; copying assignments and composite literals are rejected where they occur)
+		return sSlice
 	case *types.Named:
 		if x.Obj().Pkg() != nil && x.Obj().Pkg().Path() == "verif/ghost" {
 			return x.Obj().Name()
@@ -375,6 +379,9 @@ func (fv *FV) structSort(named *types.Named, st *types.Struct) string {
 	var fields []string
 	for i := 0; i < st.NumFields(); i++ {
 		f := st.Field(i)
+		if _, isArr := f.Type().Underlying().(*types.Array); isArr {
+			fv.fail(token.NoPos, "unsupported type: struct field %s of array type (copied with the struct)", f.Name())
+		}
 		fields = append(fields, fmt.Sprintf("(%s_%s %s)", name, symName(f.Name()), fv.sortOf(f.Type())))
 	}
 	if len(fields) == 0 {
